@@ -956,6 +956,13 @@ def specialise(n, lid, variant):
                 if a.get("guard") is not None:
                     break
                 return specialise(a["body"], lid, variant)
+    if k == "if" and n["c"].get("k") == "let" and local_id(strip(n["c"].get("init") or {})) == lid and n["c"].get("pat") is not None:
+        # `if let Some(v) = <local> { .. } else { .. }`
+        vs = {last(v) for v in pat_variants(n["c"]["pat"]) if v}
+        if vs:
+            if variant in vs or "*" in vs:
+                return specialise(n["t"], lid, variant)
+            return specialise(n["e"], lid, variant) if n.get("e") is not None else {"k": "block", "stmts": [], "expr": None}
     n2 = {kk: specialise(v, lid, variant) for kk, v in n.items()}
     if k == "bin" and n2["op"] in ("==", "!="):
         for a, b in ((n2["l"], n2["r"]), (n2["r"], n2["l"])):
